@@ -88,7 +88,8 @@ def finish(c, d, res, keys, rule):
     tr = dict(fails=[tuple(x) for x in res["fails"]])
     c.judge(tr, logf)
     st = res["stats"]
-    vacuity(st, keys)
+    if not c.violations:      # a formula false on real-code states is a verdict whatever else the run did not reach
+        vacuity(st, keys)
     nodes = vlib.read_log(logf)
     pick = [n for n in nodes if n["a"] in ("EndBlock", "CancelMM", "UnfarmAndWithdraw") and n["res"].get("ok")]
     c.samples = [dict(id=n["id"], run=n["run"], a=n["a"], args=n["args"], res=n["res"],
